@@ -8,7 +8,7 @@ META = dict(
          "and the output share's value and truth are compared with a reference: first selected; first of maximal importance among selected inputs whose "
          "normalised truth exceeds the default truth; maximal truth then maximal importance then first; importance- and truth-weighted average when the "
          "weighted truth exceeds the default; otherwise the default share's value and truth. Any exception is a violation.",
-    note="Importances are positive and default truths are floats in [0, 1] (None at construction is covered as a separate small family); "
+    note="Importance 0 is a separate family with a reduced truth set; default truths are floats in [0, 1] (None at construction is covered as a separate small family); "
          "input shares always have a value; NaN truths are not in the grid.",
 )
 import itertools
@@ -44,11 +44,16 @@ def states(kind, n, i, family):
         vals = (i + 1, "s%d" % i)
     truths = TRUTHS4 if n >= 4 else TRUTHS
     sels = SELS
+    imps = IMPS
     if family == "selvariants":
         sels = (True, False, 1, 0, None, "x", "")
         truths = (None, 0.25, 0.75)
         vals = vals[:2]
-    return [(s, t, m, v) for s in sels for t in truths for m in IMPS for v in vals]
+    if family == "zeroimp":      # importances over the whole documented range [0.0, 1.0] incl. both ends, int and float zero
+        imps = (0, 0.0, 0.5, 1.0)
+        truths = (None, 0.25, 0.75)
+        vals = vals[:2] if kind == "ArbiterWeighted" else vals[:1]
+    return [(s, t, m, v) for s in sels for t in truths for m in imps for v in vals]
 
 
 def same(a, b):
@@ -69,6 +74,10 @@ def reference(kind, cfg, dt):
         if not elig:
             return ("default",)
         top = max(m for i, t, m in elig)
+        if top == 0:
+            # every selected sufficient input has importance 0: 'most important' is read by ioflo as 'none has any importance'
+            # (default); the statement's wording would pick the first.  Either is accepted.
+            return ("input-or-default", min(i for i, t, m in elig))
         return ("input", min(i for i, t, m in elig if m == top))
     if kind == "ArbiterTrusted":
         if not elig:
@@ -195,6 +204,10 @@ def _work(job):
         if exp[0] == "default":
             ok = same(gv, DEFAULT_VALUE) and same(gt, dt)
             want = "default (%r, %r)" % (DEFAULT_VALUE, dt)
+        elif exp[0] == "input-or-default":
+            s, t, m, v = cfg[exp[1]]
+            ok = (same(gv, DEFAULT_VALUE) and same(gt, dt)) or (same(gv, v) and (same(gt, t) or same(gt, fix(t))))
+            want = "default (%r, %r) or input %d (%r, %r)" % (DEFAULT_VALUE, dt, exp[1], v, fix(t))
         elif exp[0] == "input":
             s, t, m, v = cfg[exp[1]]
             # the chosen input's value, and its truth either as stored or normalised to [0, 1]
@@ -266,12 +279,20 @@ def run():
                     jobs.append(("main", kind, n, dt, i0))
             for i0 in range(len(states(kind, n, 0, "selvariants"))):
                 jobs.append(("selvariants", kind, n, 0.5, i0))
+    for n in (1, 2, 3):
+        for kind in KINDS:
+            for dt in (0.0, 0.5):
+                for i0 in range(len(states(kind, n, 0, "zeroimp"))):
+                    jobs.append(("zeroimp", kind, n, dt, i0))
     ck.merge(core.pmap(work, jobs, chunksize=4))
     ck.assumptions = [
         "truths are normalised as documented: None/True -> 1.0, False -> 0.0, numbers clamped to [0, 1]; 'exceeds the default truth' compares the normalised truth",
         "the output must carry the chosen input's value and that input's truth, either as stored or normalised (the switch arbiter copies it as stored, "
         "priority/trusted write the normalised truth; the statement does not say which)",
-        "importances are positive (0.5, 1): an input of importance 0 is outside the grid because the arbiters disagree on whether it can win",
+        "importances cover the documented range [0.0, 1.0] incl. 0 / 0.0 (zero-importance family, n <= 3): the switch arbiter ignores importances, the trusted "
+        "arbiter ranks by truth first (an importance-0 input of highest truth wins; importance only breaks ties), a zero weight drops out of the weighted "
+        "average; for the priority arbiter, when every selected sufficient input has importance 0 both the default (ioflo: nothing has any importance) and "
+        "the first such input (literal statement) are accepted",
         "weighted arbiter: a selected input whose value is not a number gives the default outputs (docstring); zero total weight gives the default; "
         "the average is compared with exact rational arithmetic to 1e-12",
         "default truth is a float in [0, 1] set before construction (0.0, 0.5; int 0/1 and None -> 1.0 as small families); default value is a marker string",
@@ -279,7 +300,7 @@ def run():
     ]
     return ck.finish(
         rule="n inputs for n = 1..%d; per input selection x truth x importance x value = 2 x 7 x 2 x (2 or 3) states (n = 4: 2 x 5 x 2 x (1 or 3)), full product, "
-             "x default truth {0.0, 0.5} x 4 arbiters; extra families for n <= 2: default truth None / int, selection in {True, False, 1, 0, None, 'x', ''}. "
+             "x default truth {0.0, 0.5} x 4 arbiters; extra families for n <= 2: default truth None / int, selection in {True, False, 1, 0, None, 'x', ''}; zero-importance family n <= 3: selection x truth {None, 0.25, 0.75} x importance {0, 0.0, 0.5, 1.0}. "
              "distinct = (arbiter, n, default truth, per-input (selected, normalised truth, importance)) with at least one selected input." % nmax,
         exhaustive=True)
 
